@@ -14,6 +14,8 @@ import (
 
 // specCtx is the environment in which a contract expression is translated.
 type specCtx struct {
+	retBlk  *ssa.BasicBlock // postconditions: the block and index of the return
+	retIdx  int
 	fr      *frame
 	st      *State
 	old     *State
@@ -366,6 +368,9 @@ func (c *specCtx) ident0(name string) (tv, error) {
 		if t, ok := c.localName(name); ok {
 			return t, nil
 		}
+		if t, ok := c.localAtReturn(name); ok {
+			return t, nil
+		}
 	}
 	// spec constants (declare-const in prelude)
 	if sf, ok := fr.enc.db.SpecFns[name]; ok && len(sf.Args) == 0 {
@@ -383,6 +388,23 @@ func (c *specCtx) ident0(name string) (tv, error) {
 		}
 	}
 	return tv{}, fmt.Errorf("unknown identifier %q", name)
+}
+
+// localAtReturn: in a postcondition (no program point of its own) a name that
+// is neither a parameter nor a result is looked up as a local variable at the
+// return the postcondition is checked at.
+func (c *specCtx) localAtReturn(name string) (tv, bool) {
+	if c.blk != nil || c.retBlk == nil || c.inOld {
+		return tv{}, false
+	}
+	for _, p := range c.fr.fn.Params {
+		if p.Name() == name {
+			return tv{}, false
+		}
+	}
+	n := *c
+	n.blk, n.idx, n.retBlk = c.retBlk, c.retIdx, nil
+	return n.localName(name)
 }
 
 // localName resolves a source-level variable name at the ctx position.
@@ -698,6 +720,9 @@ func (c *specCtx) callExpr(x *ast.CallExpr) (tv, error) {
 		// the variable's definition)
 		if id, ok := args[0].(*ast.Ident); ok {
 			if _, ok := c.localName(id.Name); ok {
+				return tv{Term{"true", SBool}, boolT}, nil
+			}
+			if _, ok := c.localAtReturn(id.Name); ok {
 				return tv{Term{"true", SBool}, boolT}, nil
 			}
 			if _, ok := c.params[id.Name]; ok {
